@@ -115,6 +115,7 @@ bucket_merge(Bucket *s1, Bucket *s2, Bucket *s3)
     r = (Bucket *)PyObject_CallObject((PyObject *)&BucketType, NULL);
   else
     r = (Bucket *)PyObject_CallObject((PyObject *)&SetType, NULL);
+  VERIF_OBJ_FAULT(r);
   if (r == NULL)
     goto err;
 
